@@ -87,6 +87,16 @@ def run(tier, seed, only=None):
         failures += qfail
         runs += qruns
         judge(shallow, qobs, "qualified")
+        # ... and laid out the way rustfmt wraps a long type: one argument per line, trailing comma
+        rustgen.WRAPPED_LAYOUT = True
+        try:
+            wobs, wfail, wruns = typecases.observe_types(d, shallow)
+        finally:
+            rustgen.WRAPPED_LAYOUT = False
+        failures += wfail
+        runs += wruns
+        judge(shallow, wobs, "wrapped")
+        qobs = qobs + wobs
     validated = validated_total[0]
     rejected = range(rejected_total[0])
     minimal = range(minimal_total[0])
